@@ -159,9 +159,103 @@ def inj_case_twin(spec, r):
     b["name"] = twin
     for c in spec["ctcs"]:
         c["ast"] = _subst(c["ast"], old, twin)
-    other = feats[0]["name"]
+    rest = [f["name"] for f in feats[1:] if f["name"] not in (a["name"], twin)]
+    other = r.choice(rest) if rest else feats[0]["name"]
     _add_ctc(spec, ["REQUIRES", a["name"], other])
     _add_ctc(spec, ["REQUIRES", twin, other])
+    # "crossed" forms: two sub-expressions that are equal up to letter case inside ONE constraint
+    x, t, o = a["name"], twin, other
+    crossed = [["AND", ["IMPLIES", x, o], ["IMPLIES", o, t]], ["AND", ["IMPLIES", o, x], ["IMPLIES", t, o]],
+               ["OR", ["AND", x, o], ["AND", o, t]], ["IMPLIES", ["OR", x, t], o],
+               ["AND", ["OR", ["NOT", x], o], ["OR", ["NOT", o], t]], ["AND", ["IMPLIES", x, o], ["IMPLIES", t, o]],
+               ["IMPLIES", ["AND", x, ["NOT", t]], o]]
+    for c in r.sample(crossed, 2):
+        _add_ctc(spec, c)
+    return spec
+
+
+def inj_strip_twin(spec, r):
+    """Two distinct features whose names are equal once surrounding blanks are stripped."""
+    feats = _feats(spec)
+    if len(feats) < 3:
+        return None
+    a, b = r.sample(feats[1:], 2)
+    twin = r.choice([a["name"] + " ", " " + a["name"], a["name"] + "  "])
+    if twin in set(S.feature_names(spec)):
+        return None
+    old = b["name"]
+    b["name"] = twin
+    for c in spec["ctcs"]:
+        c["ast"] = _subst(c["ast"], old, twin)
+    rest = [f["name"] for f in feats[1:] if f["name"] not in (a["name"], twin)]
+    other = r.choice(rest) if rest else feats[0]["name"]
+    _add_ctc(spec, ["IMPLIES", a["name"], other])
+    _add_ctc(spec, ["IMPLIES", ["NOT", twin], other])
+    return spec
+
+
+def inj_shared_nodes(spec, r):
+    """Constraints whose expression trees share Node objects: one sub-expression used by two constraints (as
+    the left operand of the same operator), and used twice inside one constraint."""
+    names = S.feature_names(spec)
+    if len(names) < 4:
+        return None
+    w, l, ro, sa = r.sample(names, 4)
+    t = [r.choice(["OR", "AND"]), w, l]
+    _add_ctc(spec, ["IMPLIES", ro, t])
+    _add_ctc(spec, [t[0], t, sa])
+    n = ["NOT", sa]
+    _add_ctc(spec, ["AND", ["OR", n, w], ["OR", n, l]])
+    _add_ctc(spec, ["AND", ["IMPLIES", t, n], ["IMPLIES", n, t]])
+    spec["share_nodes"] = True
+    return spec
+
+
+def inj_dup_ctc_names(spec, r):
+    """Several constraints of different kinds under one and the same name."""
+    a, b = _two(spec, r)
+    nm = r.choice(["rule", "", "payment rules", "c0"])
+    k0 = len(spec["ctcs"])
+    _add_ctc(spec, ["REQUIRES", a, b])
+    _add_ctc(spec, ["OR", ["NOT", b], ["AND", a, b]])
+    _add_ctc(spec, ["EXCLUDES", b, a])
+    for c in spec["ctcs"][k0:]:
+        c["name"] = nm
+    return spec
+
+
+def inj_attr_null(spec, r):
+    """Attributes built with the rarely used null_value argument (equal to / different from the value)."""
+    for f in r.sample(_feats(spec), min(2, len(_feats(spec)))):
+        v, nv = r.choice([(0, 0), ("none", "none"), (5, 0), (2.5, 2.5), (True, False), ("x", None)])
+        f.setdefault("attrs", []).append({"name": _attr_name(f, "dflt"), "value": v, "null": nv})
+    return spec
+
+
+def inj_afm_same_domain(spec, r):
+    """The same domain text on several attributes of several features."""
+    fs = _feats(spec)
+    kind = r.choice(["range", "elements"])
+    for f in r.sample(fs, min(len(fs), 3)):
+        for nm in ("cost", "tier"):
+            if kind == "range":
+                dom = {"ranges": [[0, 10]], "elements": []}
+                default, null = "3", "0"
+            else:
+                dom = {"ranges": [], "elements": ['"gold"', '"silver"']}
+                default, null = '"gold"', '"silver"'
+            f.setdefault("attrs", []).append({"name": _attr_name(f, nm), "domain": dom, "default": default, "null": null})
+    return spec
+
+
+def inj_same_list_value(spec, r):
+    """The same list / map value on several attributes."""
+    fs = _feats(spec)
+    v = r.choice([[1, 2, 3], {"k": 1, "z": "x"}, ["a", "b"]])
+    import copy
+    for f in r.sample(fs, min(len(fs), 3)):
+        for nm in ("tags", "more"):
+            f.setdefault("attrs", []).append({"name": _attr_name(f, nm), "value": copy.deepcopy(v)})
     return spec
 
 
@@ -336,6 +430,9 @@ ATTR_VALUES = {
     "attr:list-with-bool": lambda r: r.choice([[True], [True, False], [1, True]]),
     "attr:nested-list": lambda r: [[1, 2], [3]],
     "attr:nested-map": lambda r: r.choice([{"k": 1}, {"a": 1, "b": "x"}, {"outer": {"inner": 2}}, {"l": [1, 2]}]),
+    "attr:nested-map-key-abstract": lambda r: r.choice([{"abstract": None, "level": 2}, {"meta": {"abstract": None, "owner": "x"}},
+                                                        [{"abstract": None}], {"abstract": None}]),
+    "attr:map-valueless-keys": lambda r: r.choice([{"a": None, "b": 1}, {"flag": None}, {"x": {"y": None}}]),
     "attr:empty-list": lambda r: [],
     "attr:float-many-digits": lambda r: r.choice([0.1234567891, 3.141592653589793, 1234567.125, 0.000123]),
     "attr:big-int": lambda r: r.choice([2 ** 40, -(2 ** 33), 10 ** 15, 9007199254740993, 2 ** 63 - 1, 10 ** 20 + 1]),
@@ -574,3 +671,26 @@ def apply(spec, injections, r):
             s = out
             tags.append(tag)
     return s, tags
+
+
+OPWORD_NAMES = ["SENSOR", "BRAND", "ANDROID", "NOTES", "MONITOR", "XORG", "ORDER", "BORDER", "KNOT", "NOTE", "ORACLE",
+                "HANDLE", "IMPLIESX", "XIMPLIES", "REQUIRESALL", "EXCLUDESX", "EQUIVALENCES", "Android", "Notes", "sensOR",
+                "ANDAND", "NOTNOT", "ORXOR", "ANDY", "FLOOR"]
+OPWORD_NAMES_NONASCII = ["ANDÉN", "SEÑOR", "ORÉGANO", "NOTÍCIA", "ÉAND", "ÑOR", "XORÉ", "ÀNOT"]
+
+
+def rename_to_opwords(spec, r, pool=OPWORD_NAMES, kmax=4, prefer_constrained=True):
+    """Rename up to kmax features (those used in constraints first) to plain identifiers that CONTAIN operator
+    words; constraints are renamed along."""
+    names = S.feature_names(spec)
+    used = [n for n in names if any(n in S.ast_names(c["ast"]) for c in spec.get("ctcs", []))]
+    order = (used + [n for n in names if n not in used]) if prefer_constrained else list(names)
+    picks = order[:r.randint(1, kmax)]
+    new = r.sample([p for p in pool if p not in names], min(len(picks), len(pool)))
+    mapping = dict(zip(picks, new))
+    for f in S.features(spec["root"]):
+        if f["name"] in mapping:
+            f["name"] = mapping[f["name"]]
+    for c in spec.get("ctcs", []):
+        c["ast"] = S.rename_ast(c["ast"], mapping)
+    return spec
